@@ -65,12 +65,20 @@ _EVNAME = {'C': 'OnCreated', 'D': 'OnDeleted', 'M': 'OnModified'}
 
 
 def real_name(a):
-    """model instance a<k> -> a schema-valid instance name."""
-    return 'proid.%s#%010d' % (a, int(a[1:]))
+    """model instance a<k> -> a schema-valid instance name.  Application names
+    may contain dots, dashes and underscores (container unique names are
+    `<proid>.<app>-<instance no>-<unique id>`, split from the right): every
+    second instance gets such a name."""
+    k = int(a[1:])
+    app = ('web-svc_%s.eu' % a) if k % 2 == 0 else a
+    return 'proid.%s#%010d' % (app, k)
 
 
 def model_name(real):
-    return real.split('#')[0].split('.', 1)[1]
+    app = real.split('#')[0].split('.', 1)[1]
+    if app.startswith('web-svc_') and app.endswith('.eu'):
+        app = app[len('web-svc_'):-len('.eu')]
+    return app
 
 
 def _stub_configure(tm_env, event, _runtime, _runtime_param=None):
